@@ -23,6 +23,7 @@ from .source import ClassInfo, FunctionInfo, ModuleInfo, SourceIndex
 from .types import TypeParser
 from . import containers   # containers
 from .containers import SymKey, SymMap, SymSet   # containers
+from . import ufmaps   # ufmaps
 from .values import (BoundBuiltin, ClassV, EnumName, EnumV, ExcV, ExtV, FlagV, FuncV, InterpError,
                      LambdaV, Lazy, ModV, Opaque, SObj, SymFloat, Unsupported, as_int,
                      as_z3bool, as_z3int, as_z3real, is_boollike, is_fraclike, is_intlike,
@@ -486,7 +487,7 @@ class Path:
             b = z3.Int(name + '#bits')
             self.assume(z3.And(b >= 0, b < (1 << 64)), fact=True)
             return SymFloat(b)
-        if k in ('key', 'map', 'set', 'kseq'):   # containers
+        if k in ('key', 'map', 'set', 'kseq', 'relmap'):   # containers
             return containers.fresh(self, typ, name)
         if k == 'opaque':
             return Opaque(f'{name}:{typ[1]}')
@@ -758,6 +759,8 @@ class Path:
             if hk in v:
                 return v[hk]
             raise SymRaise(mk_exc('KeyError'))
+        if isinstance(v, ufmaps.SymRelMap):   # ufmaps
+            return ufmaps.getitem(self, v, k)
         if isinstance(v, SymMap):   # containers
             return containers.map_getitem(self, v, k)
         if isinstance(v, containers.SymKeySeq):   # absnodes
@@ -1450,6 +1453,8 @@ class Path:
     def contains(self, container, item):
         if isinstance(container, seqs.KINDS):
             return seqs.contains(self, container, item)
+        if isinstance(container, (ufmaps.SymRelMap, ufmaps.SymRow)):   # ufmaps
+            return ufmaps.contains(self, container, item)
         if isinstance(container, (SymMap, SymSet)):   # containers
             return containers.contains(self, container, item)
         if type(container).__name__ == 'SymStr':
@@ -1666,6 +1671,16 @@ class Path:
             # Enum(value) lookup
             if len(args) == 1:
                 vals = self.ex.enum_values(ci)
+                if self.index.is_flag_enum(ci) and isinstance(args[0], int) and not isinstance(args[0], bool):
+                    # Flag(int) (boundary STRICT): any combination of defined bits is a (pseudo-)member
+                    mask = 0
+                    for v in vals:
+                        mask |= v
+                    if args[0] < 0:
+                        raise Unsupported('Flag(negative int)')
+                    if args[0] & ~mask:
+                        raise SymRaise(mk_exc('ValueError'))
+                    return FlagV(ci, args[0])
                 for i, v in enumerate(vals):
                     r = self.equal(v, args[0])
                     if self.branch(r, f'enum-lookup=={i}'):
@@ -1926,6 +1941,8 @@ class Path:
     def setitem(self, obj, k, v):
         if self.txns:
             raise MergeAbort()
+        if isinstance(obj, ufmaps.SymRelMap):   # ufmaps
+            return ufmaps.setitem(self, obj, k, v)
         if isinstance(obj, SymMap):   # containers
             return containers.map_setitem(self, obj, k, v)
         if self.loop_guard is not None:   # containers
@@ -2115,6 +2132,8 @@ class Path:
         from . import absnodes   # absnodes: while rule with heap havoc (invariant winv<k>)
         if absnodes.has_while_invariant(self, st, fr):
             return absnodes.while_rule(self, st, fr)
+        if ufmaps.applies(self, st, fr):   # ufmaps: while rule with heap writes
+            return ufmaps.loop_rule(self, st, fr)
         if seqs.has_invariant(self, st, fr):
             return seqs.loop_rule(self, st, None, fr)
         n = 0
@@ -2273,6 +2292,11 @@ class Path:
                 if self.txns:
                     raise MergeAbort()
                 fr.locals.pop(t.id, None)
+            elif isinstance(t, ast.Subscript) and not self.txns:   # ufmaps: del m[k] on a symbolic dict
+                obj = self.ev(t.value, fr)
+                if not isinstance(obj, (ufmaps.SymRelMap,)):
+                    raise Unsupported('del target')
+                ufmaps.delitem(self, obj, self.ev(t.slice, fr))
             else:
                 raise Unsupported('del target')
 
